@@ -321,6 +321,15 @@ def run_shard(spec, rec):
     attach(rec, log)
     rng = rng_for(spec)
     S.model_class()
+    if spec["shard"] == 0:
+        # hand-built schemes with a single conditionally linear parameter (one matrix column is both C- and Fortran-
+        # contiguous; the same array serves every global index of an unlinked index-independent dataset)
+        from vf.props import c03
+
+        for jc in c03.adversarial_cases():
+            if jc["features"].get("single_clp"):
+                judge_case(jc, rec, log)
+                rec.case(("single-clp", jc["features"]["link_clp"], bool(jc["megacomplexes"]["m1"]["disp"]), jc["datasets"][1]["weight"]), True, features=["single_clp"])
     for i in range(spec["n"]):
         case = fix_groups(S.gen_case(rng, layouts=("mg", "gm", "mg_f", "gm_f")))
         jc = S.jsonable_case(case)
